@@ -684,7 +684,11 @@ class ObjExec(AbsExec):
                 from .absexec import freeze
                 return App(what, tuple(freeze(a) for a in args), tuple(sorted((k, freeze(x)) for k, x in kw.items())))
             raise self.unknown(e, f"call of {f}")
-        return super().call(e, env)
+        # the callee was evaluated once above: hand the value on (evaluating `xs.pop().items` a second time would pop twice)
+        env2 = dict(env)
+        env2["<callee>"] = f
+        e2 = ast.copy_location(ast.Call(func=ast.copy_location(ast.Name(id="<callee>", ctx=ast.Load()), e.func), args=e.args, keywords=e.keywords), e)
+        return super().call(e2, env2)
 
     def regex(self, what: str, args: list[Any], kw: dict[str, Any], e: ast.AST) -> Any:
         """Regular expressions on concrete strings (patterns compiled or not): pure functions of the standard library, by their documented meaning."""
